@@ -310,6 +310,8 @@ func runC02(c *core.Ctx) {
 		// ---- Part E: the schema grows between two requests (a later load makes C implement Named / join the union): the data holds
 		// C objects behind Named- and AB-typed fields from the start, the first request only touches A and B values behind them
 		runC02Growth(c, report)
+		// ---- Part F: the depth ceiling is met at the same place whichever strategy backs the data
+		runC02Depth(c)
 	}
 	c.R.Bound = fmt.Sprintf("A: documents within %d mutations x single faults and all pairs of faults (call logs <= 12); B: all 2^%d assignments x 2 modes; C: 3 probes; D: all 6 argument orders", k, len(nodes)-1)
 	if !completed {
@@ -494,6 +496,187 @@ func runC02Growth(c *core.Ctx, report func(part, kind, msg string, attrs map[str
 					worldCase{Config: nc.Name, SDL: sBefore.SDL() + "\n# later load:\nextend type C implements Named\nextend union AB = C", Query: first + "   THEN (after the load)   " + text, Expected: map[string]interface{}{"data": ex.Data, "err_paths": ex.ErrPaths}, Observed: o})
 			} else {
 				c.Outcome("E-agree")
+			}
+		}
+	}
+}
+
+// ---- Part F: requests nested up to and beyond the depth ceiling over a cyclic two-node graph (objects in lists, leaf lists),
+// under four ways of backing the same data: Resolver objects, an AnyResolver over maps, reflection on cold roots, reflection with
+// registered types. Every nesting depth 0 .. ceiling+3 for three ceilings; the responses (data, error paths) must be the same
+// under all four, and complete below the place where the first of them is cut.
+
+const c02DeepSDL = "type Query { top: N }\ntype N { name: String kids: [N] tags: [String] one: N }\n"
+
+type c02DeepRS struct {
+	name string
+	kid  *c02DeepRS
+}
+
+func (n *c02DeepRS) Resolve(field *ggql.Field, args map[string]interface{}) (interface{}, error) {
+	switch field.Name {
+	case "query", "top":
+		return n, nil
+	case "name":
+		return n.name, nil
+	case "kids":
+		return []interface{}{n.kid}, nil // one member: two would double the answer at every level
+	case "tags":
+		return []interface{}{n.name + "1", n.name + "2"}, nil
+	case "one":
+		return n.kid, nil
+	}
+	return nil, fmt.Errorf("no field %s", field.Name)
+}
+
+type c02DeepAny struct{ top map[string]interface{} }
+
+func (r *c02DeepAny) Resolve(obj interface{}, field *ggql.Field, args map[string]interface{}) (interface{}, error) {
+	if m, ok := obj.(map[string]interface{}); ok {
+		return m[field.Name], nil
+	}
+	if field.Name == "top" {
+		return r.top, nil
+	}
+	return r, nil // the query object
+}
+func (r *c02DeepAny) Len(list interface{}) int {
+	l, _ := list.([]interface{})
+	return len(l)
+}
+func (r *c02DeepAny) Nth(list interface{}, i int) (interface{}, error) {
+	if l, ok := list.([]interface{}); ok && i < len(l) {
+		return l[i], nil
+	}
+	return nil, fmt.Errorf("no element %d", i)
+}
+
+type C02DeepN struct {
+	Name string
+	Kids []*C02DeepN
+	Tags []string
+	One  *C02DeepN
+}
+type C02DeepQuery struct{ Top *C02DeepN }
+type C02DeepRoot struct{ Query *C02DeepQuery }
+
+func c02DeepRoots() map[string]*ggql.Root {
+	roots := map[string]*ggql.Root{}
+	a, b := &c02DeepRS{name: "a"}, &c02DeepRS{name: "b"}
+	a.kid, b.kid = b, a
+	roots["RS"] = ggql.NewRoot(a)
+	ma, mb := map[string]interface{}{"name": "a", "tags": []interface{}{"a1", "a2"}}, map[string]interface{}{"name": "b", "tags": []interface{}{"b1", "b2"}}
+	ma["kids"], mb["kids"] = []interface{}{mb}, []interface{}{ma}
+	ma["one"], mb["one"] = mb, ma
+	any := ggql.NewRoot(nil)
+	any.AnyResolver = &c02DeepAny{top: ma}
+	roots["AS"] = any
+	for _, reg := range []bool{false, true} {
+		fa, fb := &C02DeepN{Name: "a", Tags: []string{"a1", "a2"}}, &C02DeepN{Name: "b", Tags: []string{"b1", "b2"}}
+		fa.Kids, fb.Kids = []*C02DeepN{fb}, []*C02DeepN{fa}
+		fa.One, fb.One = fb, fa
+		r := ggql.NewRoot(&C02DeepRoot{Query: &C02DeepQuery{Top: fa}})
+		name := "FS/cold"
+		if reg {
+			name = "FS/registered"
+		}
+		roots[name] = r
+	}
+	for name, r := range roots {
+		if err := r.ParseString(c02DeepSDL); err != nil {
+			panic(core.EngineError{Msg: "C02 depth schema refused: " + err.Error()})
+		}
+		if name == "FS/registered" {
+			if err := r.RegisterType(&C02DeepN{}, "N"); err != nil {
+				panic(core.EngineError{Msg: err.Error()})
+			}
+			if err := r.RegisterType(&C02DeepQuery{}, "Query"); err != nil {
+				panic(core.EngineError{Msg: err.Error()})
+			}
+		}
+	}
+	return roots
+}
+
+func runC02Depth(c *core.Ctx) {
+	defer func(d int) { ggql.MaxResolveDepth = d }(ggql.MaxResolveDepth)
+	shapes := []struct{ name, open, leaf string }{
+		{"lists-of-objects", "kids { ", "name tags"},
+		{"single-objects", "one { ", "name tags"},
+		{"alternating", "", "name tags"},
+	}
+	for _, ceiling := range []int{7, 12, 100} {
+		maxD := ceiling + 3
+		if ceiling == 100 {
+			maxD = 64 // 2 levels per list of objects: the ceiling is met around 48
+		}
+		for _, sh := range shapes {
+			for d := 0; d <= maxD; d++ {
+				c.Eval()
+				c.R.Distinct++
+				c.Nontrivial()
+				var q strings.Builder
+				q.WriteString("{ top { ")
+				for i := 0; i < d; i++ {
+					switch {
+					case sh.open != "":
+						q.WriteString(sh.open)
+					case i%2 == 0:
+						q.WriteString("kids { ")
+					default:
+						q.WriteString("one { ")
+					}
+				}
+				q.WriteString(sh.leaf)
+				q.WriteString(strings.Repeat(" }", d+2))
+				ggql.MaxResolveDepth = ceiling
+				answers := map[string]string{}
+				var names []string
+				var pi *core.PanicInfo
+				for name, root := range c02DeepRoots() {
+					name, root := name, root
+					if p := core.Safe(func() {
+						res := root.ResolveString(q.String(), "", nil)
+						// messages name Go types / strategies; data and error paths are compared
+						var paths []string
+						if el, ok := res["errors"].([]interface{}); ok {
+							for _, e := range el {
+								if m, ok := e.(map[string]interface{}); ok {
+									paths = append(paths, fmt.Sprint(m["path"]))
+								}
+							}
+						}
+						sort.Strings(paths)
+						answers[name] = string(toJSON(world.Canon(res["data"]))) + " errors at " + strings.Join(paths, " ")
+					}); p != nil {
+						pi = p
+					}
+					names = append(names, name)
+				}
+				sort.Strings(names)
+				detail := map[string]interface{}{"request": q.String(), "max_resolve_depth": ceiling, "nesting": d, "answers": answers}
+				attrs := map[string]string{"part": "F-depth", "shape": sh.name, "ceiling": fmt.Sprint(ceiling)}
+				if pi != nil {
+					c.Violation("panic", map[string]string{"site": pi.Site, "class": pi.Class, "part": "F-depth"}, detail)
+					continue
+				}
+				same := true
+				for _, n := range names[1:] {
+					if answers[n] != answers[names[0]] {
+						same = false
+						attrs["differs"] = names[0] + "~" + n
+					}
+				}
+				if !same {
+					c.Outcome("F-differ")
+					c.Violation("data-diff", attrs, detail)
+					continue
+				}
+				if strings.Contains(answers[names[0]], "errors at [") {
+					c.Outcome("F-agree-cut")
+				} else {
+					c.Outcome("F-agree-complete")
+				}
 			}
 		}
 	}
